@@ -766,29 +766,29 @@ def generate(rng, tier):
     if os.environ.get("VERIF_C15_CORE_ONLY"):
         return core
     cases = []
-    for _ in range(110 if quick else 5000):
+    for _ in range(230 if quick else 3800):
         cases.append(gen_hist(rng, tier, "std"))
-    for _ in range(15 if quick else 800):
+    for _ in range(35 if quick else 800):
         cases.append(gen_hist(rng, tier, "sub"))
-    for _ in range(15 if quick else 800):
+    for _ in range(35 if quick else 800):
         cases.append(gen_hist(rng, tier, "thr"))
-    for _ in range(12 if quick else 500):
+    for _ in range(25 if quick else 500):
         cases.append(gen_hist(rng, tier, "std", bad=True))
-    for _ in range(45 if quick else 3000):
+    for _ in range(100 if quick else 2300):
         cases.append(gen_rel(rng, tier))
-    for _ in range(20 if quick else 1200):
+    for _ in range(45 if quick else 950):
         cases.append(gen_near(rng, tier))
-    for _ in range(12 if quick else 600):
+    for _ in range(25 if quick else 600):
         cases.append(gen_intfield(rng, tier))
-    for _ in range(30 if quick else 1300):
+    for _ in range(60 if quick else 1000):
         cases.append(gen_inplace(rng, tier))
-    for _ in range(4 if quick else 150):
+    for _ in range(8 if quick else 150):
         cases.append(gen_dictspec(rng, tier))
-    for _ in range(10 if quick else 450):
+    for _ in range(25 if quick else 450):
         cases.append(gen_wide(rng, tier))
-    for _ in range(15 if quick else 700):
+    for _ in range(35 if quick else 700):
         cases.append(gen_alias(rng, tier))
-    for _ in range(20 if quick else 900):
+    for _ in range(40 if quick else 750):
         cases.append(gen_geom(rng, tier))
     for _ in range(0 if quick else 4):
         cases.append(gen_big(rng))
